@@ -124,6 +124,45 @@ func (m *Model) RunFormat(s *Sink, rule string, fns []*ssa.Function) {
 						ok2 = true
 						why = "the caller's own format parameter, judged at its call sites"
 					}
+				case *ssa.Phi, *ssa.Call:
+					// one of several constants: chosen by a condition, or by a module function all of whose returns are constants
+					var constOnly func(v ssa.Value, d int) bool
+					constOnly = func(v ssa.Value, d int) bool {
+						if d > 3 {
+							return false
+						}
+						switch y := v.(type) {
+						case *ssa.Const:
+							return y.Value != nil && y.Value.Kind() == constant.String
+						case *ssa.Phi:
+							for _, e := range y.Edges {
+								if !constOnly(e, d+1) {
+									return false
+								}
+							}
+							return len(y.Edges) > 0
+						case *ssa.Call:
+							sc := y.Call.StaticCallee()
+							if sc == nil || sc.Blocks == nil || !m.InModule(sc) || sc.Signature.Results().Len() != 1 {
+								return false
+							}
+							nr := 0
+							for _, rb := range sc.Blocks {
+								if ret, isRet := rb.Instrs[len(rb.Instrs)-1].(*ssa.Return); isRet {
+									nr++
+									if !constOnly(ret.Results[0], d+1) {
+										return false
+									}
+								}
+							}
+							return nr > 0
+						}
+						return false
+					}
+					if constOnly(fa, 0) {
+						ok2 = true
+						why = "one of several constants (a choice among constant texts)"
+					}
 				}
 				if ok2 {
 					s.OK(rule, key, m.InstrPos(in), "the format is %s", why)
